@@ -113,7 +113,86 @@ HostileCodes(e) ==
   \* the classification TLC attached to a mutant survives the trip through the harness
   \cup (IF e.hasin = 1 /\ e.wf >= 0 /\ (ParseWhole(e.in).ok # (e.wf = 1)) THEN {<<"gen.classification", 0>>} ELSE {})
 
+(* ---- histories (C11): a used instance answers a one-shot call like a fresh one; ---- *)
+(* ---- values, input octets and the caller's maps are untouched                    ---- *)
+HistCodes(e) ==
+  UNION {
+    (IF e.probes[i].eu # e.probes[i].ef THEN {<<"C11.encodeBytes", i>>} ELSE {})
+    \cup (IF e.probes[i].eerru # e.probes[i].eerrf THEN {<<"C11.encodeErr", i>>} ELSE {})
+    \cup (IF e.probes[i].du # e.probes[i].df THEN {<<"C11.decodeValue", i>>} ELSE {})
+    \cup (IF e.probes[i].derru # e.probes[i].derrf THEN {<<"C11.decodeErr", i>>} ELSE {})
+    : i \in 1..Len(e.probes)}
+  \cup (IF e.va # e.vb THEN {<<"C11.mutatedValue", 0>>} ELSE {})
+  \cup (IF e.ba # e.bb THEN {<<"C11.mutatedBytes", 0>>} ELSE {})
+  \cup (IF e.ma # e.mb THEN {<<"C11.mutatedMap", 0>>} ELSE {})
+
+(* ---- type / name map extraction (C16) ---- *)
+TSucc(T, t) == LET k == T[t].kind IN
+               CASE k = "struct" -> {T[t].ft[j] : j \in 1..Len(T[t].ft)}
+                 [] k = "slice"  -> {T[t].elem}
+                 [] k = "map"    -> {T[t].key, T[t].elem}
+                 [] k = "ptr"    -> {T[t].elem}
+                 [] OTHER -> {}
+RECURSIVE TClosure(_,_)
+TClosure(T, S) == LET S2 == S \cup UNION {TSucc(T, t) : t \in S} IN IF S2 = S THEN S ELSE TClosure(T, S2)
+RECURSIVE TBase(_,_)
+TBase(T, t) == IF T[t].kind = "ptr" THEN TBase(T, T[t].elem) ELSE t
+RECURSIVE TSame(_,_,_)
+TSame(T, a, b) == LET x == TBase(T, a) y == TBase(T, b) IN
+                  x = y \/ (T[x].kind = "slice" /\ T[y].kind = "slice" /\ TSame(T, T[x].elem, T[y].elem))
+Lookup(pairs, key) == LET S == {i \in 1..Len(pairs) : pairs[i][1] = key} IN
+                      IF S = {} THEN <<FALSE, 0>> ELSE <<TRUE, pairs[CHOOSE i \in S : TRUE][2]>>
+ExtractCodes(e) ==
+  IF e.crash = 1 THEN {<<"C16.crash", 0>>}
+  ELSE IF e.hang = 1 THEN {<<"C16.hang", 0>>}
+  ELSE
+  (IF e.panic = 1 THEN {<<"C16.panic", 0>>} ELSE {})
+  \cup (IF e.ofpanic = 1 THEN {<<"C16.typeMapOfPanic", 0>>} ELSE {})
+  \cup (IF e.same = 0 THEN {<<"C16.entryPointsDiffer", 0>>} ELSE {})
+  \cup (IF e.panic = 1 THEN {} ELSE
+        LET T == e.T
+            reach == TClosure(T, {e.root})
+            need == {t \in reach : T[t].kind \in {"struct", "slice"}}
+        IN UNION {
+             LET n == Lookup(e.nm, e.names[t]) IN
+             IF ~n[1] THEN {<<"C16.closed", t>>}                       \* no wire name for a reachable type
+             ELSE (IF T[t].kind = "struct" /\ e.customs[t] # <<>> /\ n[2] # e.customs[t] THEN {<<"C16.custom", t>>} ELSE {})
+                  \cup (LET m == Lookup(e.tm, n[2]) IN
+                        IF ~m[1] THEN {<<"C16.closed", t>>}             \* wire name not in the type map
+                        ELSE IF ~TSame(T, m[2], t) THEN {<<"C16.consistent", t>>} ELSE {})
+             : t \in need})
+  \cup (IF e.ofpanic = 1 THEN {} ELSE
+        LET T == e.T
+            structs == {t \in TClosure(T, {e.root}) : T[t].kind = "struct"}
+        IN {<<"C16.typeMapOf", t>> : t \in {s \in structs : ~\E i \in 1..Len(e.tmof) : e.tmof[i][2] = s}})
+
+(* ---- concurrency (C12) ---- *)
+(* replayed interleaving: every instance's stream and results equal those of the same calls alone *)
+ConcCodes(e) ==
+  {<<"C12.octets", i>> : i \in {j \in 1..Len(e.outs) : e.outs[j] # e.alone[j]}}
+  \cup {<<"C12.value", i>> : i \in {j \in 1..Len(e.rs) : e.rs[j] # e.ars[j]}}
+  \cup (IF e.bads # e.abads THEN {<<"C12.errors", 0>>} ELSE {})
+  \cup {<<"C12.failed", k>> : k \in {j \in 1..Len(e.bads) : e.bads[j] = 1}}
+(* one goroutine's calls under load: octets equal the call alone; sampled results equal the inputs *)
+LoadCodes(e) ==
+  {<<"C12.octets", k>> : k \in {j \in 1..Len(e.calls) : e.calls[j][2] # e.alone[e.calls[j][1]]}}
+  \cup {<<"C12.failed", k>> : k \in {j \in 1..Len(e.calls) : e.calls[j][3] = 1 \/ e.calls[j][4] = 1}}
+  \cup UNION {{<<"C12.value", k>> : c \in SameCodes([n |-> e.pairs[k].v.n, T |-> e.T], e.pairs[k].v, e.pairs[k].r)}
+              : k \in 1..Len(e.pairs)}
+(* the package-level variables of the library and who may assign to them: all mutable *)
+(* codec state lives in the instances; package-level state is written at start-up only *)
+SharedVarsAllowed == [hlog |-> {"SetLogger"}, _buildInTypeNameMap |-> {"addBuildInNameType"}]
+InventoryCodes(e) ==
+  {<<"diag.inventory", i>> : i \in {j \in 1..Len(e.vars) :
+       LET v == e.vars[j] ws == {v.writers[k] : k \in 1..Len(v.writers)} IN
+       ws # {} /\ (v.name \notin DOMAIN SharedVarsAllowed \/ ~(ws \subseteq SharedVarsAllowed[v.name]))}}
+
 Codes(e) == CASE e.ev = "rt" -> RtCodes(e)
+              [] e.ev = "conc" -> ConcCodes(e)
+              [] e.ev = "concload" -> LoadCodes(e)
+              [] e.ev = "inventory" -> InventoryCodes(e)
+              [] e.ev = "extract" -> ExtractCodes(e)
+              [] e.ev = "hist" -> HistCodes(e)
               [] e.ev = "hostile" -> HostileCodes(e)
               [] e.ev = "alt" -> AltCodes(e)
               [] e.ev = "stream" -> StreamCodes(e)
